@@ -467,8 +467,18 @@ func cmdCheck(args []string) {
 		if tier == "thorough" && h.PreemptT > 0 {
 			pre = h.PreemptT
 		}
+		hfn := h.Fn
 		eo := &sym.ExploreOpts{Workers: *workers, Solver: solver, TimeoutMS: to, Race: h.Race,
-			Opts: &sym.Options{Tier: tier, MaxPreempt: pre}}
+			Opts: &sym.Options{Tier: tier, MaxPreempt: pre},
+			KnownKey: func(key string) bool {
+				parts := strings.SplitN(key, "|", 3)
+				if len(parts) < 3 {
+					return false
+				}
+				v := &sym.Violation{Kind: parts[0], Label: parts[1], Keys: strings.Split(parts[2], ","), Harness: hfn}
+				kf := matchKnown(known, prop, v)
+				return kf != nil && kf.Status == "open"
+			}}
 		r := sym.Explore(p, fn, eo)
 		hs = append(hs, hsum{Harness: h.Fn, Paths: r.Paths, Queries: r.Queries, Unsat: r.QUnsat, Sat: r.QSat, Unknown: r.QUnknown,
 			SolverS: round3(r.SolverTime.Seconds()), WallS: round3(r.Wall.Seconds()), Solver: solver, Schedules: r.Schedules,
